@@ -158,8 +158,9 @@ def effective_kinds(config, model):
         if not any(stage == "test" for stage, _ in model.raised):
             out.append(("test", pg.UXSUCCESS))
             out.sort(key=lambda sk: 0 if sk[0] in ("setUp", "setUp.pre") else 1 if sk[0] == "test" else 2)
-    if "test" in ran and (config.force_failure or config.expect_mismatch):
-        # the forced failure is raised after everything else
+    if config.force_failure or ("test" in ran and config.expect_mismatch):
+        # the forced failure is raised after everything else (also when setUp did not return
+        # normally: a failed expectation must not be lost because setUp went on to skip)
         out.append(("forced", pg.FAIL))
     return out
 
